@@ -127,6 +127,17 @@ mod holder_types {
         pub h: G,
         pub tail: String,
     }
+
+    /// evolved record whose added graph field is declared first: fields are written and read in declaration order, so the
+    /// graph is introduced in chunk 1 and cited from chunk 0, which precedes it in the bytes
+    #[derive(BinaryCodec)]
+    #[evolution(FieldAdded("h", G(new_node(0))))]
+    pub struct HolderAddedFirst {
+        pub h: G,
+        pub tag: u8,
+        pub g: G,
+        pub tail: String,
+    }
 }
 
 /// bytes of a second offer of the whole graph after it has been written once: the root's number
@@ -159,12 +170,17 @@ fn embedded_graph(acc: &mut Acc, shape: &Shape) {
         &second_offer_bytes()[..],
     ]
     .concat();
+    let af = HolderAddedFirst { h: G(nodes[0].clone()), tag: 9, g: G(nodes[0].clone()), tail: tail.clone() };
+    let c0af: Vec<u8> = [&[9u8][..], &second_offer_bytes()[..], &tail_bytes[..]].concat();
+    let exp2: Vec<u8> = [&[1u8][..], &vi_bytes(c0af.len() as i32)[..], &vi_bytes(g_bytes.len() as i32)[..], &c0af[..], &g_bytes[..]].concat();
     let (w0, _) = monitored(None, || desert::serialize_to_byte_vec(&v0).map_err(|e| classify(&e)));
     let (w1, _) = monitored(None, || desert::serialize_to_byte_vec(&ev).map_err(|e| classify(&e)));
+    let (w2, _) = monitored(None, || desert::serialize_to_byte_vec(&af).map_err(|e| classify(&e)));
     drop(v0);
     drop(ev);
+    drop(af);
     dismantle(&nodes);
-    for (name, written, expected) in [("version-0 record", &w0, &exp0), ("evolved record", &w1, &exp1)] {
+    for (name, written, expected) in [("version-0 record", &w0, &exp0), ("evolved record", &w1, &exp1), ("evolved record, added field declared first", &w2, &exp2)] {
         match written {
             Call::Ok(b) if b == expected => acc.count("embedded_graph_bytes_ok"),
             Call::Ok(b) => acc.violation(format!("C10|embedded|bytes|{name}"), detail("bytes of a graph written as a record field differ from the model", short(b)).with("expected", J::s(short(expected)))),
@@ -197,6 +213,13 @@ fn embedded_graph(acc: &mut Acc, shape: &Shape) {
         let (r, _) = monitored(None, || desert::deserialize::<HolderEvolved>(b).map_err(|e| classify(&e)));
         check(acc, "evolved record", match r {
             Call::Ok(x) => Ok((x.g.0.clone(), x.h.0.clone(), x.tail.clone(), x.tag)),
+            other => Err(other.class()),
+        });
+    }
+    if let Call::Ok(b) = &w2 {
+        let (r, _) = monitored(None, || desert::deserialize::<HolderAddedFirst>(b).map_err(|e| classify(&e)));
+        check(acc, "evolved record, added field declared first", match r {
+            Call::Ok(x) => Ok((x.h.0.clone(), x.g.0.clone(), x.tail.clone(), x.tag)),
             other => Err(other.class()),
         });
     }
